@@ -102,9 +102,10 @@ def ty_name(t):
     return TYN[t][0]
 
 
-def ty_name_akk(t):
-    """type name after 'jeden/jede/jedes' (accusative: 'jeden Buchstaben')"""
-    return "Buchstaben" if t == "C" else ty_name(t)
+def ty_name_akk(t, art="der"):
+    """type name after 'jeden/jede/jedes' (accusative: 'jeden Buchstaben'; after a wrong pronoun the nominative is kept,
+    'jede Buchstaben' would be the start of 'Buchstaben Liste')"""
+    return "Buchstaben" if (t == "C" and art == "der") else ty_name(t)
 
 
 def ref_name(t):
@@ -164,7 +165,7 @@ def r_stmt(s, ind, out):
     elif k == "assignfield":
         out.append("%sSpeichere %s in %s von %s." % (t, r_expr(s[3]), ident(s[1]), ident(s[2])))
     elif k == "foreach":
-        out.append("%sFür %s %s %s in %s, mache:" % (t, ART_FOR[s[1]], ty_name_akk(s[2]), ident(s[3]), r_expr(s[4])))
+        out.append("%sFür %s %s %s in %s, mache:" % (t, ART_FOR[s[1]], ty_name_akk(s[2], s[1]), ident(s[3]), r_expr(s[4])))
         r_block(s[5], ind + 1, out)
     elif k == "repeat":
         out.append("%sWiederhole:" % t)
@@ -1140,7 +1141,7 @@ EXPECT = {
 
 def work_gen(args):
     """one base program and the mutants of Coq's injector (raw model lines).  Runs in a worker process."""
-    idx, seed, model, scratch = args
+    idx, seed, model, scratch, cap = args
     import random
     rng = random.Random(seed)
     g = Gen(rng)
@@ -1152,7 +1153,16 @@ def work_gen(args):
         fh.write(render_module(mod))
     lines = run_model(model, ["P " + sx(p)])
     base = lines[0].split()
-    raw = ["M - -1 %s %s %s %s" % (base[1], base[2], base[3], sx(p))] + [l for l in lines[1:] if l.startswith("M ")]
+    muts = [l for l in lines[1:] if l.startswith("M ")]
+    if cap:
+        by = {}
+        for l in muts:
+            by.setdefault(l.split(" ", 2)[1], []).append(l)
+        muts = []
+        for fc, ls in by.items():
+            muts += ls if len(ls) <= cap else rng.sample(ls, cap)
+        g.stats["mutants_enumerated"] = sum(len(ls) for ls in by.values())
+    raw = ["M - -1 %s %s %s %s" % (base[1], base[2], base[3], sx(p))] + muts
     g.stats["base:quirk_free"] = int(base[4])
     g.stats["base:shadow_free"] = int(base[5])
     return idx, mod, mdir, raw, g.stats
@@ -1170,6 +1180,7 @@ def work_chunk(args):
         it = dict(kind="base" if f[1] == "-" else "mutant", fault=f[1], site=int(f[2]), ast=ast, wfb=f[3] == "1", check=f[4], patched=f[5])
         it["src"] = render_main(ast)
         it["pywf"] = Spec(mod).wf(ast)
+        it["voidlist"] = has_void_list(ast)
         it["style"] = "plain"
         items.append(it)
         for st in STYLES_OF_FAULT.get(it["fault"], []):
@@ -1259,6 +1270,23 @@ def work_grid(args):
     return items
 
 
+def has_void_list(p):
+    """does the program build a list whose elements have no type: a list literal that starts with, or `verkettet` of two, calls
+    of functions that return nothing?  (defect of the frontend that the Coq model does not mirror: see the C04 report)"""
+    void = {d[2] for d in p[1][1:] if d[0] == "ifun" and d[4] == "none"} | {t[1] for t in p[3][1:] if t[0] == "fun" and t[3][1] == "none"}
+    isv = lambda e: isinstance(e, list) and e and e[0] == "call" and e[1] in void
+
+    def walk(n):
+        if not isinstance(n, list) or not n:
+            return False
+        if n[0] == "list" and isv(n[1]) and all(isv(x) for x in n[2:]):
+            return True
+        if n[0] == "bin" and n[1] == "cat" and isv(n[2]) and isv(n[3]):
+            return True
+        return any(walk(c) for c in n[1:])
+    return walk(p[3])
+
+
 def shrink(p, bad):
     """greedy removal of top-level items and statements while bad(p) stays true"""
     import copy
@@ -1333,14 +1361,14 @@ def main():
         fe = first_error(o) if o else None
         results.append(dict(kind="corpus", fault=c.get("name", fn), site=-1, ast=p, wfb=mv[1] == "1", check=mv[2], patched=mv[3], src=src,
                             pywf=Spec(mod).wf(p), obs=o, acc=accepted(o), code=fe["code"] if fe else None, line=fe["sl"] if fe else 0,
-                            dir=mdir, modtext=render_module(mod), idx=-1, expect=c.get("expect"), style=c.get("style", "plain")))
+                            dir=mdir, modtext=render_module(mod), idx=-1, expect=c.get("expect"), style=c.get("style", "plain"), voidlist=has_void_list(p)))
 
     # ---- 2. generated programs and all their mutants --------------------------------------------
     from concurrent.futures import ProcessPoolExecutor
     seeds = [ck.rng.getrandbits(48) for _ in range(nprog)]
     gstats = {}
     with ProcessPoolExecutor(max_workers=vlib.NCPU) as ex:
-        gens = list(ex.map(work_gen, [(i, seeds[i], model, scratch) for i in range(nprog)]))
+        gens = list(ex.map(work_gen, [(i, seeds[i], model, scratch, 300 if ck.quick else 0) for i in range(nprog)]))
         log("[c04] %d base programs, %d mutants from the Coq injector in %.0fs" % (nprog, sum(len(g[3]) - 1 for g in gens), time.time() - t0))
         chunks = []
         for idx, mod, mdir, raw, st in gens:
@@ -1368,6 +1396,7 @@ def main():
     first_diag_tab = {}
     first_diag_bad = []
     n_base_ok = n_false_reject = 0
+    void_list_tolerated = 0
     mismatch = []
     viol_seen = {}
     acc_ill = [it for it in results if it["acc"] and not it["pywf"] and it["pywf"] == it["wfb"]]
@@ -1403,6 +1432,8 @@ def main():
         # the property: ill-formed => rejected
         if not specwf and it["acc"]:
             why = it["why"]
+            if not why and it.get("voidlist"):
+                why = "void_list"
             key = "accepted-ill-formed quirk=%s" % why if why else "accepted-ill-formed unexplained fault=%s%s" % (fault, "" if it.get("style", "plain") == "plain" else " rendering=" + it["style"])
             if key not in viol_seen:
                 ast = it["ast"]
@@ -1430,7 +1461,9 @@ def main():
                 # same mechanism again: let the known-findings filter see it, but do not store another replay
                 ck.violation(key, "", None)
         # correspondence algorithm model <-> implementation
-        if model_acc != it["acc"]:
+        if it.get("voidlist") and (model_acc != it["acc"] or (not it["acc"] and it["code"] not in EXPECT.get(it["check"].split(",")[0], set()))):
+            void_list_tolerated += 1        # the model has the repaired behaviour for lists of nothing
+        elif model_acc != it["acc"]:
             mismatch.append(it)
         elif not it["acc"] and it["check"] != "-":
             d0 = it["check"].split(",")[0]
@@ -1438,7 +1471,7 @@ def main():
             t = first_diag_tab.setdefault(d0, {})
             t[it["code"]] = t.get(it["code"], 0) + 1
             if it["code"] not in EXPECT.get(d0, set()):
-                first_diag_bad.append((d0, it["code"], "model: %s\nfrontend: code %s at line %s: %s\n\n%s" % (it["check"], it["code"], it["line"], (it["src"].splitlines() + [""] * it["line"])[max(it["line"] - 1, 0)], it["src"]), it["code"] in EXPECT.get(d1, set())))
+                first_diag_bad.append((d0, it["code"], "%s\n\nmodel: %s\nfrontend: code %s at line %s: %s" % (it["src"][-1200:], it["check"], it["code"], it["line"], (it["src"].splitlines() + [""] * it["line"])[max(it["line"] - 1, 0)]), it["code"] in EXPECT.get(d1, set())))
         if not it["acc"]:
             codes[it["code"]] = codes.get(it["code"], 0) + 1
             if it["line"] > 2 and kind == "mutant":
@@ -1449,7 +1482,7 @@ def main():
     # violations with the quirk as key.  A frontend that agrees with no setting at all is a broken correspondence.
     variant = CURRENT
     if mismatch:
-        probe = [it for it in results if it["ast"] is not None and ((it["check"] == "-") != (it["patched"] == "-") or it in mismatch)]
+        probe = [it for it in results if it["ast"] is not None and ((it["patched"] != "?" and (it["check"] == "-") != (it["patched"] == "-")) or it in mismatch)]
         settings = ["".join("1" if (k >> i) & 1 else "0" for i in range(4)) for k in range(15, -1, -1)]
         out = run_model(model, ["Q %s %s" % (fl, sx(it["ast"])) for it in probe for fl in settings])
         ok = []
@@ -1516,10 +1549,10 @@ def main():
         corpus=len(corpus), mutants=nm, per_fault=per_fault, first_error_codes={str(k): v for k, v in sorted(codes.items(), key=lambda kv: str(kv[0]))},
         first_diagnostic_model_vs_frontend={k: {str(c): n for c, n in v.items()} for k, v in first_diag_tab.items()},
         first_diagnostic_kind_disagreements=len(first_diag_bad), acceptance_disagreements_model_vs_frontend=len(mismatch),
-        model_variant_matching_the_frontend=dict(zip(QUIRKS, variant)),
+        model_variant_matching_the_frontend=dict(zip(QUIRKS, variant)), programs_with_a_list_of_nothing_not_compared_with_the_model=void_list_tolerated,
         kddp=kres, operator_grid=dict(cells=n_grid, **grid_stats),
         exhaustive="operator grid: every unary/binary operator and cast of the core x 10 operand kinds (6 primitive types, 2 list types, Kombination, call without result)%s" % ("" if ck.quick else " x 8 declared result types"),
-        exhaustive_note="ALL single-fault mutants (16 classes, every site the injector of coq/Lang/MiniMutate.v finds) of every generated base program are run; base programs are random",
+        exhaustive_note="thorough: ALL single-fault mutants (20 classes, every site the injector of coq/Lang/MiniMutate.v finds) of every generated base program are run; quick: at most 300 per class and program, sampled; base programs are random",
         rule="evaluations = programs parsed by the real frontend (+ kddp runs); non-trivial = a mutant whose first error is reported after line 2 "
              "(the frontend accepted a non-empty prefix), distinct by source text",
         generated_constructs=gstats,
